@@ -11,7 +11,7 @@ steps (`Reach.execAll`: everything the driver computes is such a state).  `s.sta
 on promise `p` — it put one callback on `p._resolvers` (branch `.res`) and one on `p._rejectors` (`.rej`).
 `calls rid b s.log`: how often the branch-`b` callback of that `then()` call has been invoked so far.
 -/
-import RedunModel.Lemmas.Promise
+import RedunModel.Lemmas.PromiseSpec
 namespace RedunModel.C13
 open RedunModel.Promise
 
@@ -169,5 +169,222 @@ def demo : State :=
 example : demo.stack.length = 0 ∧ demo.regs = [0, 0, 0] ∧
     calls 0 .res demo.log = 1 ∧ calls 1 .res demo.log = 1 ∧ calls 2 .res demo.log = 1 ∧
     calls 0 .rej demo.log = 0 := by decide
+
+/-! ## registration order -/
+
+/-- `then()` call numbers on promise `p` whose branch-`b` callback has been invoked, in invocation order -/
+def invokedOrder (s : State) (p : Nat) (b : Br) : List Nat :=
+  (s.log.filterMap fun
+    | .invoke rid b' _ => if b' = b ∧ s.regs[rid]? = some p then some rid else none
+    | _ => none).reverse
+
+/-- the full-strength ordering claim of the property: on every promise, callbacks run in registration order -/
+def RegistrationOrder (s : State) : Prop := ∀ p b, (invokedOrder s p b).Pairwise (· < ·)
+
+theorem order_refuted_witness : invokedOrder demo 0 .res = [0, 2, 1] ∧ callIds demo = [1, 3, 2] := by decide
+
+/-- **Refuted on the current code**: `p.then(f1)` where `f1` calls `p.then(f3)`, then `p.then(f2)`, then
+`p.do_resolve(1)` runs `f1, f3, f2` — the callback registered during the notification (then() call #2) runs before
+the one registered earlier (#1). -/
+theorem order_refuted_registered_during_notification : ∃ s, Reach s ∧ s.stack = [] ∧ ¬ RegistrationOrder s := by
+  refine ⟨demo, Reach.execAll _ _, by decide, ?_⟩
+  intro h
+  have := h 0 .res
+  rw [order_refuted_witness.1] at this
+  revert this; decide
+
+/-! ## Promise.all -/
+
+/-- `Promise.all` **fulfills with the results in input order when all inputs are fulfilled** (whatever the order
+in which they were fulfilled, before or after the call, with duplicates or not). `r` is the closure state of the
+`a`-th collector call of the history, `r.subs` its inputs, `r.target` the promise it returned. Hypothesis `hd`:
+user code did not call `do_resolve`/`do_reject` on the returned promise itself. -/
+theorem all_fulfills {s : State} (h : Reach s) (hq : s.stack = []) {a : Nat} {r : Coll} (hr : s.colls[a]? = some r)
+    (hm : r.mode = .all) (hd : Event.direct r.target ∉ s.log)
+    (hall : ∀ (i p : Nat), r.subs[i]? = some p → ∃ v, status s p = some (.settled .res v)) :
+    ∃ vs, status s r.target = some (.settled .res (.list vs)) ∧ vs.length = r.subs.length ∧
+      ∀ (i p : Nat), r.subs[i]? = some p → ∃ v, vs[i]? = some v ∧ status s p = some (.settled .res v) := by
+  have G := h.ginv
+  have Q := G.quiet hq hr
+  have I := G.c.i
+  -- every input has reported
+  have hdone : r.numDone = r.subs.length := by
+    rw [G.c.r.done a r hr, ← Q.full, List.countP_eq_length]
+    intro rid hrid
+    obtain ⟨i, p, hp, hreg⟩ := Q.back rid hrid
+    obtain ⟨v, hv⟩ := hall i p hp
+    have := ((I.quiet_calls hq hreg).2 .res v hv).1
+    simp [doneP, hm, this]
+  have T := G.t a r hr hd
+  unfold TOk at T
+  simp only [hm] at T
+  obtain ⟨st, hst⟩ := status_some_of_lt (G.c.o.target_lt hr)
+  cases st with
+  | pending => have := (T.1 hst).1; omega
+  | settled b v =>
+    cases b with
+    | rej =>
+      exfalso
+      obtain ⟨l1, rid, l2, hlog, hrid, _⟩ := T.2.2 v hst
+      have hmem : Event.invoke rid .rej v ∈ s.log := by rw [hlog]; simp
+      obtain ⟨i, p, hp, hreg⟩ := Q.back rid hrid
+      have h1 := status_of_settledAs (I.logs rid .rej v hmem) hreg
+      obtain ⟨v', hv'⟩ := hall i p hp
+      rw [h1] at hv'; cases hv'
+    | res =>
+      obtain ⟨rfl, _⟩ := T.2.1 v hst
+      have hlen := (G.c.r.len a r hr).2 hm
+      refine ⟨r.results, hst, hlen, ?_⟩
+      intro i p hp
+      obtain ⟨v, hv⟩ := hall i p hp
+      obtain ⟨rid, hrid, hreg⟩ := Q.pair i p hp
+      have hc := ((I.quiet_calls hq hreg).2 .res v hv).1
+      obtain ⟨v', hmem⟩ := exists_invoke_of_calls_pos (rid := rid) (b := .res) (log := s.log) (by omega)
+      have h1 := status_of_settledAs (I.logs rid .res v' hmem) hreg
+      rw [hv] at h1; cases h1
+      exact ⟨v, G.c.r.res a r i rid v hr hm hrid hmem, hv⟩
+
+/-- `Promise.all` **rejects when some input is rejected, with the first rejection it observed**: the error is the
+one the first of its `fail` callbacks was invoked with (`FirstFail`), which is the error of a rejected input. -/
+theorem all_rejects {s : State} (h : Reach s) (hq : s.stack = []) {a : Nat} {r : Coll} (hr : s.colls[a]? = some r)
+    (hm : r.mode = .all) (hd : Event.direct r.target ∉ s.log)
+    (hrej : ∃ (i p : Nat) (e : Val), r.subs[i]? = some p ∧ status s p = some (.settled .rej e)) :
+    ∃ e, status s r.target = some (.settled .rej e) ∧ FirstFail r.rids e s.log ∧
+      ∃ (j p : Nat), r.subs[j]? = some p ∧ status s p = some (.settled .rej e) := by
+  have G := h.ginv
+  have Q := G.quiet hq hr
+  have I := G.c.i
+  obtain ⟨i, p, e, hp, hst_p⟩ := hrej
+  obtain ⟨rid, hrid, hreg⟩ := Q.pair i p hp
+  have hcalls := (I.quiet_calls hq hreg).2 .rej e hst_p
+  have T := G.t a r hr hd
+  unfold TOk at T
+  simp only [hm] at T
+  obtain ⟨st, hst⟩ := status_some_of_lt (G.c.o.target_lt hr)
+  cases st with
+  | pending =>
+    have := (T.1 hst).2 rid (List.mem_of_getElem? hrid)
+    omega
+  | settled b v =>
+    cases b with
+    | res =>
+      exfalso
+      have hn := (T.2.1 v hst).2
+      rw [G.c.r.done a r hr, ← Q.full, List.countP_eq_length] at hn
+      have := hn rid (List.mem_of_getElem? hrid)
+      simp only [doneP, hm, decide_eq_true_eq] at this
+      have := hcalls.2 .res (by simp)
+      omega
+    | rej =>
+      have hff := T.2.2 v hst
+      refine ⟨v, hst, hff, ?_⟩
+      obtain ⟨l1, rid', l2, hlog, hrid', _⟩ := hff
+      have hmem : Event.invoke rid' .rej v ∈ s.log := by rw [hlog]; simp
+      obtain ⟨j, p', hp', hreg'⟩ := Q.back rid' hrid'
+      exact ⟨j, p', hp', status_of_settledAs (I.logs rid' .rej v hmem) hreg'⟩
+
+/-- ... and stays pending while no input is rejected and some input is still pending. -/
+theorem all_pending {s : State} (h : Reach s) (hq : s.stack = []) {a : Nat} {r : Coll} (hr : s.colls[a]? = some r)
+    (hm : r.mode = .all) (hd : Event.direct r.target ∉ s.log)
+    (hnorej : ∀ (i p : Nat) (e : Val), r.subs[i]? = some p → status s p ≠ some (.settled .rej e))
+    (hpend : ∃ (i p : Nat), r.subs[i]? = some p ∧ status s p = some .pending) :
+    status s r.target = some .pending := by
+  have G := h.ginv
+  have Q := G.quiet hq hr
+  have I := G.c.i
+  obtain ⟨i, p, hp, hst_p⟩ := hpend
+  obtain ⟨rid, hrid, hreg⟩ := Q.pair i p hp
+  have hcalls := (I.quiet_calls hq hreg).1 hst_p
+  have T := G.t a r hr hd
+  unfold TOk at T
+  simp only [hm] at T
+  obtain ⟨st, hst⟩ := status_some_of_lt (G.c.o.target_lt hr)
+  cases st with
+  | pending => exact hst
+  | settled b v =>
+    exfalso
+    cases b with
+    | res =>
+      have hn := (T.2.1 v hst).2
+      rw [G.c.r.done a r hr, ← Q.full, List.countP_eq_length] at hn
+      have := hn rid (List.mem_of_getElem? hrid)
+      simp only [doneP, hm, decide_eq_true_eq] at this
+      have := hcalls .res
+      omega
+    | rej =>
+      obtain ⟨l1, rid', l2, hlog, hrid', _⟩ := T.2.2 v hst
+      have hmem : Event.invoke rid' .rej v ∈ s.log := by rw [hlog]; simp
+      obtain ⟨j, p', hp', hreg'⟩ := Q.back rid' hrid'
+      exact hnorej j p' v hp' (status_of_settledAs (I.logs rid' .rej v hmem) hreg')
+
+/-! ## wait_promises -/
+
+/-- `wait_promises` **fulfills (with the list of its inputs) once every input has settled**, either way. -/
+theorem wait_fulfills {s : State} (h : Reach s) (hq : s.stack = []) {a : Nat} {r : Coll} (hr : s.colls[a]? = some r)
+    (hm : r.mode = .wait) (hd : Event.direct r.target ∉ s.log)
+    (hall : ∀ (i p : Nat), r.subs[i]? = some p → ∃ b v, status s p = some (.settled b v)) :
+    status s r.target = some (.settled .res (.list (r.subs.map .prom))) := by
+  have G := h.ginv
+  have Q := G.quiet hq hr
+  have I := G.c.i
+  have hdone : r.numDone = r.subs.length := by
+    rw [G.c.r.done a r hr, ← Q.full, List.countP_eq_length]
+    intro rid hrid
+    obtain ⟨i, p, hp, hreg⟩ := Q.back rid hrid
+    obtain ⟨b, v, hv⟩ := hall i p hp
+    have h1 := (I.quiet_calls hq hreg).2 b v hv
+    cases b with
+    | res => have := h1.2 .rej (by simp); simp [doneP, hm, h1.1, this]
+    | rej => have := h1.2 .res (by simp); simp [doneP, hm, h1.1, this]
+  have T := G.t a r hr hd
+  unfold TOk at T
+  simp only [hm] at T
+  obtain ⟨st, hst⟩ := status_some_of_lt (G.c.o.target_lt hr)
+  cases st with
+  | pending => have := T.1 hst; omega
+  | settled b v =>
+    obtain ⟨rfl, rfl, _⟩ := T.2 b v hst
+    exact hst
+
+/-- ... and not before: while some input is pending it is pending. -/
+theorem wait_pending {s : State} (h : Reach s) (hq : s.stack = []) {a : Nat} {r : Coll} (hr : s.colls[a]? = some r)
+    (hm : r.mode = .wait) (hd : Event.direct r.target ∉ s.log)
+    (hpend : ∃ (i p : Nat), r.subs[i]? = some p ∧ status s p = some .pending) :
+    status s r.target = some .pending := by
+  have G := h.ginv
+  have Q := G.quiet hq hr
+  have I := G.c.i
+  obtain ⟨i, p, hp, hst_p⟩ := hpend
+  obtain ⟨rid, hrid, hreg⟩ := Q.pair i p hp
+  have hcalls := (I.quiet_calls hq hreg).1 hst_p
+  have T := G.t a r hr hd
+  unfold TOk at T
+  simp only [hm] at T
+  obtain ⟨st, hst⟩ := status_some_of_lt (G.c.o.target_lt hr)
+  cases st with
+  | pending => exact hst
+  | settled b v =>
+    exfalso
+    have hn := (T.2 b v hst).2.2
+    rw [G.c.r.done a r hr, ← Q.full, List.countP_eq_length] at hn
+    have := hn rid (List.mem_of_getElem? hrid)
+    simp only [doneP, hm, decide_eq_true_eq] at this
+    have h1 := hcalls .res
+    have h2 := hcalls .rej
+    omega
+
+
+/-- non-vacuity of the collector theorems: `all([p0,p1])` and `wait_promises([p0,p1])`, inputs settled in the
+opposite order; then the same with a rejection. Promises: 0,1 inputs, 2 = all's, 5 = wait's (3,4,6,7 chained). -/
+def demoAll : State :=
+  execAll 200 [.new, .new, .all [0, 1], .wait [0, 1], .settle .res 1 (.int 2), .settle .res 0 (.int 1)] init
+def demoRej : State :=
+  execAll 200 [.new, .new, .all [0, 1], .wait [0, 1], .settle .rej 1 (.err 7), .settle .res 0 (.int 1)] init
+
+example : demoAll.stack.length = 0 ∧ (demoAll.colls.map (·.target)) = [2, 5] ∧ (demoAll.colls.map (·.subs)) = [[0, 1], [0, 1]] := by decide
+example : status demoAll 2 = some (.settled .res (.list [.int 1, .int 2])) := by rfl
+example : status demoAll 5 = some (.settled .res (.list [.prom 0, .prom 1])) := by rfl
+example : status demoRej 2 = some (.settled .rej (.err 7)) := by rfl
+example : status demoRej 5 = some (.settled .res (.list [.prom 0, .prom 1])) := by rfl
 
 end RedunModel.C13
